@@ -216,15 +216,18 @@ Definition chk_equiv (C : fe_code) (fes : list frontend) (c : ecase) : bool * bo
   (negb (same_skel && ec_common c) || eq_out, negb (ec_common c) || (eq_out && eq_serial)).
 
 (* ---- a small concrete environment (used by the non-vacuity Examples and refutation witnesses) *)
-(* framer state = number of buffered bytes; a chunk starting with 0 is malformed (StructError,
-   bytes stay buffered); any other chunk is one request whose "execution" appends to the world *)
+(* framer state = number of buffered bytes; a chunk starting with 255 is an incomplete frame (it is
+   kept, nothing is raised); a chunk starting with 0, or any chunk arriving while bytes are
+   buffered, is malformed (StructError, bytes stay buffered); any other chunk is one request
+   whose "execution" appends to the world *)
 Definition toy_env : env nat Z Z (list Z) := {|
   e_finit := 0%nat;
   e_reset := fun _ => 0%nat;
   e_recv := fun _ f bs =>
     match bs with
     | [] => ([], f, None)
-    | b :: _ => if (f =? 0)%nat && negb (b =? 0)%N then ([(f, Z.of_N b)], f, None)
+    | b :: _ => if (b =? 255)%N then ([], (f + length bs)%nat, None)        (* incomplete frame: wait *)
+                else if (f =? 0)%nat && negb (b =? 0)%N then ([(f, Z.of_N b)], f, None)
                 else ([], (f + length bs)%nat, Some StructError)
     end;
   e_slaves := fun _ => [1];
